@@ -746,7 +746,59 @@ struct BfvQ {
     unaligned: Vec<usize>,
 }
 
-fn t_bfv<W: Word + To128, B: AsRef<[W]>>(t: &mut Tr, v: &BitFieldVec<W, B>, q: &BfvQ) {
+/// The atomic view of a vector (`.into()` an `AtomicBitFieldVec` over the same kind
+/// of backend: owned for the original and the full copy, `&[W]` for zero-copy
+/// instances) is part of the observable behaviour.
+trait AtomicViewTrace {
+    fn atomic_trace(&self, t: &mut Tr, q: &BfvQ);
+}
+macro_rules! impl_atomic_view {
+    ($($W:ty),*) => {$(
+        impl AtomicViewTrace for BitFieldVec<$W, Vec<$W>> {
+            fn atomic_trace(&self, t: &mut Tr, q: &BfvQ) {
+                let a: sux::bits::AtomicBitFieldVec<$W, Vec<<$W as common_traits::IntoAtomic>::AtomicType>> = self.clone().into();
+                atomic_obs!(t, a, q);
+            }
+        }
+        impl AtomicViewTrace for BitFieldVec<$W, Box<[$W]>> {
+            fn atomic_trace(&self, t: &mut Tr, q: &BfvQ) {
+                let a: sux::bits::AtomicBitFieldVec<$W, Box<[<$W as common_traits::IntoAtomic>::AtomicType]>> = self.clone().into();
+                atomic_obs!(t, a, q);
+            }
+        }
+        impl<'a> AtomicViewTrace for BitFieldVec<$W, &'a [$W]> {
+            fn atomic_trace(&self, t: &mut Tr, q: &BfvQ) {
+                let a: sux::bits::AtomicBitFieldVec<$W, &'a [<$W as common_traits::IntoAtomic>::AtomicType]> = self.clone().into();
+                atomic_obs!(t, a, q);
+            }
+        }
+    )*};
+}
+macro_rules! atomic_obs {
+    ($t:ident, $a:ident, $q:ident) => {{
+        use std::sync::atomic::Ordering;
+        use sux::traits::AtomicBitFieldSlice;
+        $t.u("atomic_view_len", 0, $a.len());
+        $t.u("atomic_view_bit_width", 0, $a.bit_width());
+        let l = $a.len();
+        for &i in $q.idx.iter().take(300) {
+            if i < l {
+                $t.w("atomic_view_get", i, $a.get_atomic(i, Ordering::Relaxed).to128());
+            }
+        }
+    }};
+}
+impl_atomic_view!(u8, u16, u32, u64, usize);
+// no atomic 128-bit words
+impl<B> AtomicViewTrace for BitFieldVec<u128, B> {
+    fn atomic_trace(&self, _t: &mut Tr, _q: &BfvQ) {}
+}
+
+fn t_bfv<W: Word + To128, B: AsRef<[W]>>(t: &mut Tr, v: &BitFieldVec<W, B>, q: &BfvQ)
+where
+    BitFieldVec<W, B>: AtomicViewTrace,
+{
+    v.atomic_trace(t, q);
     t.u("len", 0, BitFieldSliceCore::<W>::len(v));
     t.u("bit_width", 0, BitFieldSliceCore::<W>::bit_width(v));
     for &i in &q.idx {
